@@ -12,6 +12,7 @@ import (
 	"sync/atomic"
 	"time"
 
+	"github.com/hashicorp/go-plugin/internal/verifhook"
 	"github.com/hashicorp/yamux"
 )
 
@@ -57,6 +58,7 @@ func (m *MuxBroker) Accept(id uint32) (net.Conn, error) {
 	p := m.getStream(id)
 	select {
 	case c = <-p.ch:
+		verifhook.Point("muxbroker.accept.took")
 		close(p.doneCh)
 	case <-time.After(5 * time.Second):
 		m.Lock()
@@ -152,6 +154,8 @@ func (m *MuxBroker) Run() {
 			continue
 		}
 
+		verifhook.Point("muxbroker.run.stream")
+
 		// Initialize the waiter
 		p := m.getStream(id)
 		select {
@@ -189,6 +193,7 @@ func (m *MuxBroker) timeoutWait(id uint32, p *muxBrokerPending) {
 	case <-time.After(5 * time.Second):
 		timeout = true
 	}
+	verifhook.Point("muxbroker.timeoutwait.pre-lock")
 
 	m.Lock()
 	defer m.Unlock()
